@@ -121,14 +121,14 @@ CONTRACTS = {
  M + 'get_num_assignments_projects': dict(
     params=PAN, requires=NPRE,
     loops={0: dict(invariant=['len(num_assignments) == self.num_projects',
-                              'forall(j, 0, self.num_projects, num_assignments[j] == Count(q, _k, pair_assignments_with_none[q] != None and pair_assignments_with_none[q].project_index == j))'])},
+                              'forall(j, 0, self.num_projects, num_assignments[j] == loadP_upto(pair_assignments_with_none, j, _k))'])},
     returns=('list', 'int'),
     ensures=[('one-per-project', 'len(result) == self.num_projects'),
              ('loads', 'forall(j, 0, self.num_projects, result[j] == loadP(pair_assignments_with_none, j))')]),
  M + 'get_num_assignments_lecturers': dict(
     params=PAN, requires=NPRE,
     loops={0: dict(invariant=['len(num_assignments) == self.num_lecturers',
-                              'forall(j, 0, self.num_lecturers, num_assignments[j] == Count(q, _k, pair_assignments_with_none[q] != None and pair_assignments_with_none[q].lecturer_index == j))'])},
+                              'forall(j, 0, self.num_lecturers, num_assignments[j] == loadL_upto(pair_assignments_with_none, j, _k))'])},
     returns=('list', 'int'),
     ensures=[('one-per-lecturer', 'len(result) == self.num_lecturers'),
              ('loads', 'forall(k, 0, self.num_lecturers, result[k] == loadL(pair_assignments_with_none, k))')]),
@@ -171,4 +171,10 @@ CONTRACTS = {
                               'forall(c, 0, _k, not blk(_k0, c))'])},
     returns='bool',
     ensures=[('true-iff-no-blocking-pair', 'result == (not exists(i, 0, len(self.pairs), exists(c, 0, len(self.pairs[i]), blk(i, c))))')]),
+
+ # text formatting helpers: modelled as pure functions of their arguments (their exact layout is covered by the bounded runs only)
+ M + '_get_profile_string': dict(pure_text=True),
+ M + '_get_detailed_student_info': dict(pure_text=True),
+ M + '_get_detailed_project_info': dict(pure_text=True),
+ M + '_get_detailed_lecturer_info': dict(pure_text=True),
 }
